@@ -1025,7 +1025,9 @@ impl<'env> Executor<'env> {
             Error::new(ErrorKind::InvalidOperation, "cannot super outside of block")
         }));
 
-        if !state.blocks.get_mut(name).unwrap().push() {
+        // an included template runs with its own block table: the block the
+        // includer is in is not in it, so there is nothing to go up to.
+        if !state.blocks.get_mut(name).is_some_and(|block| block.push()) {
             return Err(Error::new(
                 ErrorKind::InvalidOperation,
                 "no parent block exists",
